@@ -128,6 +128,22 @@ def _simple_cases(ctx, stride):
     return out
 
 
+def inheritable_cases(ctx, stride, first_id=10 ** 6):
+    """XSD 1.1 only (not part of build_pool): the single-fault documents of Validator.tla below a root that carries
+    an inheritable attribute."""
+    from harness import vdoc
+    r = ctx.tlc("Validator", "Validator.cfg", constants={"MaxItems": 2, "Double": "FALSE"},
+                tag="pool-validator11", workers=4)
+    out = []
+    for i, rec in enumerate(r.json_records()):
+        if i % stride:
+            continue
+        out.append({"origin": "validator11", "xsds": [vdoc.XSD11], "only11": True, "id": first_id + len(out),
+                    "xml": vdoc.render(rec["nodes"], root_attrs=' lang="en"'), "spec_valid": rec["valid"],
+                    "about": f"validator/inheritable {rec['fault']}"})
+    return out
+
+
 def build_pool(ctx, scale=1):
     """-> list of cases; `scale` > 1 thins the pool out."""
     parts = ctx.parallel([
